@@ -63,7 +63,16 @@ fn decode_case(frame: &[u8]) -> String {
         let mut d = FrameDecoder::new();
         let mut out = Vec::with_capacity(1 << 20);
         match d.decode_all_to_vec(frame, &mut out) {
-            Ok(()) => format!("ok:{:016x}/{}", fnv(&out), out.len()),
+            Ok(()) => {
+                // the stored checksum is reported by every build; a build with hashing must also have calculated
+                // the same value (decode_all_to_vec decodes the last frame of the input completely)
+                let stored = d.get_checksum_from_data();
+                #[cfg(feature = "hash")]
+                let calc_differs = stored.is_some() && d.get_calculated_checksum() != stored;
+                #[cfg(not(feature = "hash"))]
+                let calc_differs = false;
+                format!("ok:{:016x}/{}/stored={:?}{}", fnv(&out), out.len(), stored, if calc_differs { "/CALCULATED-CHECKSUM-DIFFERS" } else { "" })
+            }
             Err(e) => format!("err:{}:{}", variant(&e), out.len()),
         }
     }))
@@ -271,12 +280,48 @@ fn main() {
     // both closed systems on one line; a panic inside the crate's I/O layer is an outcome, not a dead driver
     let shim = |f: fn() -> String| catch_unwind(AssertUnwindSafe(f)).unwrap_or_else(|p| format!("cases=0 mismatches=1 PANIC in the crate's I/O layer: {}", p.downcast_ref::<String>().cloned().or(p.downcast_ref::<&str>().map(|s| s.to_string())).unwrap_or_default()));
     println!("{} || chunked sources: {}", shim(shim_closed_system), shim(shim_chunked_system));
+    // X = register a dictionary, F = define a frame, H = decode the frames with the listed indices one after the
+    // other on ONE decoder that has every registered dictionary (state that survives a reset in one build only
+    // shows up here)
+    let mut dicts: Vec<Vec<u8>> = vec![];
+    let mut frames: Vec<Vec<u8>> = vec![];
     for (i, line) in text.lines().enumerate() {
         let (kind, hex) = line.split_once(' ').unwrap_or((line, ""));
         let data = unhex(hex);
         match kind {
             "C" => println!("{i} C {}", compress_case(&data)),
             "D" => println!("{i} D {}", decode_case(&data)),
+            "X" => {
+                let ok = catch_unwind(AssertUnwindSafe(|| ruzstd::decoding::Dictionary::decode_dict(&data).is_ok())).unwrap_or(false);
+                dicts.push(data);
+                println!("{i} X {}", if ok { "ok" } else { "refused" });
+            }
+            "F" => {
+                frames.push(data);
+                println!("{i} F defined");
+            }
+            "H" => {
+                let out = catch_unwind(AssertUnwindSafe(|| {
+                    let mut d = FrameDecoder::new();
+                    for raw in &dicts {
+                        if let Ok(dict) = ruzstd::decoding::Dictionary::decode_dict(raw) {
+                            let _ = d.add_dict(dict);
+                        }
+                    }
+                    let mut parts = vec![];
+                    for idx in &data {
+                        let frame = &frames[*idx as usize];
+                        let mut out = Vec::with_capacity(1 << 20);
+                        parts.push(match d.decode_all_to_vec(frame, &mut out) {
+                            Ok(()) => format!("ok:{:016x}/{}/{:?}", fnv(&out), out.len(), d.get_checksum_from_data()),
+                            Err(e) => format!("err:{}:{}", variant(&e), out.len()),
+                        });
+                    }
+                    parts.join("|")
+                }))
+                .unwrap_or_else(|_| "panic".into());
+                println!("{i} H {out}");
+            }
             _ => {}
         }
     }
